@@ -126,6 +126,7 @@ BUILTIN1 = {"enumerate": "pyEnumerate", "reversed": "pyReversed", "range": "pyRa
 # method name -> (primitive, number of explicit arguments accepted (min, max))
 STR_METHODS = {
     "endswith": ("pyEndswith", 1, 1),
+    "startswith": ("pyStartswith", 1, 1),
     "replace": ("pyReplace", 2, 2),
     "items": ("pyItems", 0, 0),
     "keys": ("pyKeys", 0, 0),
@@ -261,6 +262,8 @@ class Fn:
                 return f"(← pyAdd G {self.V(e.left)} {self.V(e.right)})"
             if isinstance(e.op, ast.Mult):
                 return f"(← pyMul {self.V(e.left)} {self.V(e.right)})"
+            if isinstance(e.op, ast.Sub):
+                return f"(← pySub {self.V(e.left)} {self.V(e.right)})"
             raise Untranslatable(f"binary operator {type(e.op).__name__}")
         if isinstance(e, ast.UnaryOp) and isinstance(e.op, ast.Not):
             return f"(PVal.bool (!truthy {self.V(e.operand)}))"
@@ -336,7 +339,67 @@ class Fn:
             return lname(n)
         if n in GLOBAL_NAMES:
             return GLOBAL_NAMES[n]
+        c = self.module_constant(n)
+        if c is not None:
+            return c
         raise Untranslatable(f"free name {n}")
+
+    MUTATORS = {"add", "append", "update", "discard", "remove", "pop", "clear", "setdefault", "extend", "insert", "popitem",
+                "sort", "reverse", "__setitem__", "__delitem__", "cache_clear", "set", "reset"}
+
+    def module_constant(self, n: str) -> str | None:
+        """a module-level name bound exactly once, to a literal, and never rebound or mutated anywhere in the module:
+        its value, inlined (a hoisted constant reads like the literal it replaced).  Strings, ints, bools, None; tuples,
+        lists, sets and frozenset(...) of such (a set becomes a list: only membership tests and joins are translated)."""
+        mod = getattr(self, "module", None)
+        if mod is None:
+            return None
+        binds = []
+        for st in mod.body:
+            tgt, val = None, None
+            if isinstance(st, ast.Assign) and len(st.targets) == 1 and isinstance(st.targets[0], ast.Name):
+                tgt, val = st.targets[0].id, st.value
+            elif isinstance(st, ast.AnnAssign) and isinstance(st.target, ast.Name) and st.value is not None:
+                tgt, val = st.target.id, st.value
+            if tgt == n:
+                binds.append(val)
+        if len(binds) != 1:
+            return None
+        for node in ast.walk(mod):
+            if isinstance(node, ast.Global) and n in node.names:
+                return None
+            if isinstance(node, ast.Name) and node.id == n and isinstance(node.ctx, (ast.Store, ast.Del)) and node is not None:
+                # the one module-level binding is allowed; any other store (e.g. inside a function, `for NAME in`) is not
+                if not any(isinstance(st, (ast.Assign, ast.AnnAssign)) and
+                           ((isinstance(st, ast.Assign) and st.targets[0] is node) or (isinstance(st, ast.AnnAssign) and st.target is node))
+                           for st in mod.body):
+                    return None
+            if isinstance(node, ast.AugAssign) and isinstance(node.target, ast.Name) and node.target.id == n:
+                return None
+            if isinstance(node, ast.Call) and isinstance(node.func, ast.Attribute) and isinstance(node.func.value, ast.Name) \
+                    and node.func.value.id == n and node.func.attr in self.MUTATORS:
+                return None
+            if isinstance(node, ast.Subscript) and isinstance(node.value, ast.Name) and node.value.id == n and isinstance(node.ctx, (ast.Store, ast.Del)):
+                return None
+
+        def lit(v):
+            if isinstance(v, ast.Constant) and (v.value is None or isinstance(v.value, (str, int, bool))) and not isinstance(v.value, float):
+                return self.const(v.value)
+            if isinstance(v, ast.UnaryOp) and isinstance(v.op, ast.USub) and isinstance(v.operand, ast.Constant) and type(v.operand.value) is int:
+                return f"(PVal.int (-{v.operand.value}))"
+            if isinstance(v, ast.Tuple):
+                return "(PVal.tuple [" + ", ".join(lit(x) for x in v.elts) + "])"
+            if isinstance(v, (ast.List, ast.Set)):
+                return "(PVal.list [" + ", ".join(lit(x) for x in v.elts) + "])"
+            if isinstance(v, ast.Call) and isinstance(v.func, ast.Name) and v.func.id in ("frozenset", "set", "tuple", "list") \
+                    and len(v.args) == 1 and not v.keywords and isinstance(v.args[0], (ast.Tuple, ast.List, ast.Set)):
+                inner = "[" + ", ".join(lit(x) for x in v.args[0].elts) + "]"
+                return f"(PVal.tuple {inner})" if v.func.id == "tuple" else f"(PVal.list {inner})"
+            raise Untranslatable("not a literal")
+        try:
+            return lit(binds[0])
+        except Untranslatable:
+            return None
 
     def compare(self, e: ast.Compare) -> str:
         if len(e.ops) != 1:
@@ -359,6 +422,12 @@ class Fn:
             return f"(PVal.bool (!truthy (← pyEq {self.V(l)} {self.V(r)})))"
         if isinstance(op, ast.Gt):
             return f"(← pyGt {self.V(l)} {self.V(r)})"
+        if isinstance(op, ast.Lt):
+            return f"(← pyLt {self.V(l)} {self.V(r)})"
+        if isinstance(op, ast.GtE):
+            return f"(← pyGe {self.V(l)} {self.V(r)})"
+        if isinstance(op, ast.LtE):
+            return f"(← pyLe {self.V(l)} {self.V(r)})"
         raise Untranslatable(f"comparison {type(op).__name__}")
 
     def subscript(self, e: ast.Subscript) -> str:
@@ -448,6 +517,9 @@ class Fn:
                 return f"(← {BUILTIN1[f.id]} {self.V(e.args[0])})"
             if f.id in self.known_by_pyname():
                 return self.call_known(self.known_by_pyname()[f.id], e.args, e.keywords)
+            inl = self.inline_helper(f.id, e)
+            if inl is not None:
+                return inl
             raise Untranslatable(f"call of {f.id}")
         if isinstance(f, ast.Attribute):
             # re.search(pattern, text)
@@ -464,6 +536,11 @@ class Fn:
                     if info.spec.returns_self:
                         raise Untranslatable("self-mutating method used as an expression")
                     return self.call_known(info, e.args, e.keywords, recv=None if info.spec.drop_self else self.name("self"))
+            # Class.m(...): a translated static method called through its class, from anywhere
+            if isinstance(f.value, ast.Name) and f.value.id not in ("self", "cls", "re") and f.value.id[:1].isupper():
+                info = self.pick(f"{f.value.id}.{f.attr}")
+                if info is not None and info.available and info.spec.drop_self and not info.spec.returns_self:
+                    return self.call_known(info, e.args, e.keywords)
             # x.m(...) decided by the class of x at run time
             if f.attr in DISPATCH:
                 arms = []
@@ -494,6 +571,47 @@ class Fn:
                 return f"(← pyDictGet {self.V(f.value)} {self.V(e.args[0])} {d})"
             raise Untranslatable(f"method call .{f.attr}()")
         raise Untranslatable("call of a computed callee")
+
+    def inline_helper(self, fname: str, e: ast.Call) -> str | None:
+        """`helper(a, b)` where `helper` is an undecorated module-level function of the same file whose body is a single
+        `return <expression>` (after an optional docstring), with plain positional parameters: the expression, with the
+        arguments bound once, in order — an extracted one-line helper reads like the expression it replaced"""
+        mod = getattr(self, "module", None)
+        if mod is None or e.keywords or any(isinstance(a, ast.Starred) for a in e.args):
+            return None
+        defs = [st for st in mod.body if isinstance(st, ast.FunctionDef) and st.name == fname]
+        if len(defs) != 1:
+            return None
+        d = defs[0]
+        a = d.args
+        if d.decorator_list or a.vararg or a.kwarg or a.kwonlyargs or a.posonlyargs or a.defaults or len(a.args) != len(e.args):
+            return None
+        body = [st for st in d.body if not (isinstance(st, ast.Expr) and isinstance(st.value, ast.Constant) and isinstance(st.value.value, str))]
+        if len(body) != 1 or not isinstance(body[0], ast.Return) or body[0].value is None:
+            return None
+        depth = getattr(self, "_inline_depth", 0)
+        if depth >= 3:
+            return None
+        self._inline_depth = depth + 1
+        try:
+            binds, scope = [], {}
+            for p, arg in zip(a.args, e.args):
+                self.tmp += 1
+                v = f"inl_{self.tmp}"
+                binds.append(f"let {v} := {self.V(arg)}")
+                scope[p.arg] = v
+            if not hasattr(self, "scopes"):
+                self.scopes = []
+            # the helper's body sees its parameters and module-level names only
+            saved = (self.all_params, self.locals, self.scopes)
+            self.all_params, self.locals, self.scopes = [], [], [scope]
+            try:
+                val = self.V(body[0].value)
+            finally:
+                self.all_params, self.locals, self.scopes = saved
+            return "(← (do " + "; ".join(binds + [f"pure {val}"]) + "))"
+        finally:
+            self._inline_depth = depth
 
     def pick(self, qual: str, pred=lambda i: True):
         """the translation of the Python function `qual` a call from this function reaches: when several area plug-ins
@@ -827,7 +945,9 @@ def _signature(spec: FnSpec, mods: dict, known: dict) -> "Fn":
     node, cls = find(mods[spec.file], spec.qual)
     if node is None:
         raise Untranslatable("function not found in the source")
-    return FN_CLASS.get(spec.lean, Fn)(spec, node, cls, known)      # (C17) FN_CLASS
+    fn = FN_CLASS.get(spec.lean, Fn)(spec, node, cls, known)      # (C17) FN_CLASS
+    fn.module = mods[spec.file]
+    return fn
 
 
 def _info_of(fn: "Fn", text: str = "") -> FnInfo:
